@@ -1,4 +1,5 @@
 import PcbV.Lemmas.VarMem
+import PcbV.Gen.Translated
 /-
   C11 — Variable storage is faithfully exposed and never aliased.
 
@@ -541,5 +542,22 @@ theorem erase_frame (names : List Bytes) (s : VM) :
   · simp only [readBack, hsc n', derefCell, f3]
   · simp only [readBack, hel n' idx hn, derefCell, f3]
 
+
+/-! ### tie to the source: the record sizes
+
+`PcbV.Gen.Translated.scalarRecordSize / arrayRecordSize` are regenerated from the Python AST of
+`Scalars._record_size` and `Arrays._record_size` (gen/tables_py2lean.py; `len(name)`, `len(dimensions)`
+are the parameters).  The theorems say that `recSize` / `arecSize` of the model are that code. -/
+
+theorem translated_recordSize_supported :
+    Gen.Translated.scalarRecordSize_supported = true ∧ Gen.Translated.arrayRecordSize_supported = true := by
+  decide
+
+theorem translated_scalarRecordSize_eq (name : Bytes) :
+    ((recSize name : Nat) : Int) = Gen.Translated.scalarRecordSize (name.length : Int) := by
+  unfold recSize Gen.Translated.scalarRecordSize; omega
+theorem translated_arrayRecordSize_eq (name : Bytes) (dims : List Nat) :
+    ((arecSize name dims : Nat) : Int) = Gen.Translated.arrayRecordSize (name.length : Int) (dims.length : Int) := by
+  unfold arecSize Gen.Translated.arrayRecordSize; omega
 
 end PcbV.C11
